@@ -1,6 +1,9 @@
 package nc
 
 import (
+	"fmt"
+	"go/constant"
+	"go/token"
 	"strings"
 
 	"golang.org/x/tools/go/ssa"
@@ -141,6 +144,7 @@ func (r *Run) c11GraphLookups() {
 	}
 
 	// --- From / To: every control node wired to the id is listed
+	nw := p.Func(PkgN, "Network.nodeWithID")
 	for _, name := range []string{"From", "To"} {
 		fn := p.Func(PkgN, "Network."+name)
 		r.Fn(FuncName(fn))
@@ -150,7 +154,9 @@ func (r *Run) c11GraphLookups() {
 		if name == "To" {
 			side, end = "Outgoing", "OutNode"
 		}
-		found, okGuard, okAll := false, false, true
+		pf := p.Pos(fn.Pos())
+		// the listing sites: append(list, controlNodes[*])
+		var apps []*ssa.Call
 		Instrs(fn, func(b *ssa.BasicBlock, _ int, in ssa.Instruction) {
 			c, ok := in.(*ssa.Call)
 			if !ok {
@@ -160,51 +166,287 @@ func (r *Run) c11GraphLookups() {
 			if !isApp || len(elems) != 1 {
 				return
 			}
-			if tf.Of(elems[0]).String() != "iface(recv.controlNodes[*])" && tf.Of(elems[0]).String() != "recv.controlNodes[*]" {
+			if s := tf.Of(elems[0]).String(); s != "iface(recv.controlNodes[*])" && s != "recv.controlNodes[*]" {
 				return
 			}
-			found = true
-			want := "NNode.ID(recv.controlNodes[*]." + side + "[*]." + end + ")"
-			for _, g := range Guards(b) {
-				gt := tf.Of(g.Cond)
-				if gt.Op == "bin" && gt.Name == "==" && g.True {
-					x, y := gt.Args[0], gt.Args[1]
-					if isParamIdx(x, 1) {
-						x, y = y, x
-					}
-					if isParamIdx(y, 1) && strings.HasSuffix(x.String(), want) {
-						okGuard = true
-					}
-				}
-			}
-			// the loop over the control nodes runs to exhaustion
-			var outer *Loop
-			for _, l := range OuterLoops(ls, b) {
-				if loopRangesOver(tf, l, "recv.controlNodes") {
-					outer = l
-				}
-			}
-			if outer == nil {
-				okAll = false
-				return
-			}
-			for x := range outer.Blocks {
-				if x == outer.Header {
-					continue
-				}
-				for _, s := range x.Succs {
-					if !outer.Blocks[s] {
-						okAll = false
-					}
-				}
-			}
+			apps = append(apps, c)
 		})
-		pf := p.Pos(fn.Pos())
-		if !found {
+		if len(apps) == 0 {
 			r.Bad("graph."+name+".control-nodes", pf, name+" does not append the control nodes of recv.controlNodes itself; that every control node wired to the id is listed cannot be established (a helper that returns the first match lists at most one)")
 			continue
 		}
-		r.Check(okGuard, "graph."+name+".control-nodes", pf, "a control node is listed when one of its "+side+" links has the id at its "+end, name+" lists control nodes under a different condition than `"+end+" of one of its "+side+" links has the id`")
+		isApp := func(in ssa.Instruction) bool {
+			for _, a := range apps {
+				if in == ssa.Instruction(a) {
+					return true
+				}
+			}
+			return false
+		}
+		// the loop over the control nodes: one loop carries every listing site
+		var outer *Loop
+		okAll := true
+		for _, a := range apps {
+			var o *Loop
+			for _, l := range OuterLoops(ls, a.Block()) {
+				if loopRangesOver(tf, l, "recv.controlNodes") {
+					o = l
+				}
+			}
+			if o == nil || (outer != nil && o != outer) {
+				okAll = false
+				continue
+			}
+			outer = o
+		}
+		if outer == nil {
+			r.Bad("graph."+name+".control-nodes", pf, name+" does not list the control nodes inside a loop over recv.controlNodes; the listing condition cannot be established")
+			r.Bad("graph."+name+".control-nodes.all", pf, name+" does not list the control nodes inside a loop over recv.controlNodes")
+			continue
+		}
+		// ... and runs to exhaustion
+		for x := range outer.Blocks {
+			if x == outer.Header {
+				continue
+			}
+			for _, s := range x.Succs {
+				if !outer.Blocks[s] {
+					okAll = false
+				}
+			}
+		}
+		// the match test: the edges on which `ID(controlNodes[*].<side>[*].<end>) == id` is known to hold,
+		// made inside a scan of that control node's <side> links
+		want := "NNode.ID(recv.controlNodes[*]." + side + "[*]." + end + ")"
+		type edge [2]*ssa.BasicBlock
+		matchEdges := map[edge]bool{}
+		scans := map[*Loop]bool{}
+		for b := range outer.Blocks {
+			iff, ok := b.Instrs[len(b.Instrs)-1].(*ssa.If)
+			if !ok || b.Succs[0] == b.Succs[1] {
+				continue
+			}
+			for si, outcome := range []bool{true, false} {
+				x, y, isEq := eqCond(tf, Guard{iff.Cond, outcome, b})
+				if !isEq {
+					continue
+				}
+				if isParamIdx(x, 1) {
+					x, y = y, x
+				}
+				if !isParamIdx(y, 1) || !strings.HasSuffix(x.String(), want) {
+					continue
+				}
+				in := InnermostLoop(ls, b)
+				if in == nil || in == outer || !loopRangesOver(tf, in, "recv.controlNodes[*]."+side) {
+					continue
+				}
+				matchEdges[edge{b, b.Succs[si]}] = true
+				scans[in] = true
+			}
+		}
+		isMatch := func(from, to *ssa.BasicBlock) bool { return matchEdges[edge{from, to}] }
+		endsIteration := func(_, to *ssa.BasicBlock) bool { return to == outer.Header || !outer.Blocks[to] }
+		var bodies []*ssa.BasicBlock
+		for _, s := range outer.Header.Succs {
+			if outer.Blocks[s] {
+				bodies = append(bodies, s)
+			}
+		}
+		explored := 0
+		// (only-if) within one iteration of the loop over the control nodes the listing site is not reachable
+		// unless the match test succeeded in that iteration. Path search with flag tracking: a result flag of an
+		// inlined helper (`found`) is followed; an undecidable branch is taken both ways.
+		var onlyIf []string
+		if len(matchEdges) > 0 {
+			for _, body := range bodies {
+				if w := FindPath(p, PathQuery{Fn: fn, StartEdge: [2]*ssa.BasicBlock{outer.Header, body}, Target: isApp, Explored: &explored,
+					AvoidEdge: func(from, to *ssa.BasicBlock) bool { return isMatch(from, to) || endsIteration(from, to) }}); w != nil {
+					onlyIf = w
+				}
+			}
+		}
+		r.Check(len(matchEdges) > 0 && onlyIf == nil, "graph."+name+".control-nodes", pf, "a control node is listed only when one of its "+side+" links has the id at its "+end+" (no path of one iteration reaches the listing site without the match)",
+			name+" lists control nodes under a different condition than `"+end+" of one of its "+side+" links has the id`", onlyIf...)
+		if len(matchEdges) == 0 {
+			r.Check(okAll, "graph."+name+".control-nodes.all", pf, "the loop over the control nodes runs to exhaustion, so every wired control node is listed", name+" stops looking at control nodes after the first match")
+			continue
+		}
+		// (if) once the match test succeeded, the iteration cannot end without the control node having been listed
+		var ifMatch []string
+		for e := range matchEdges {
+			if w := FindPath(p, PathQuery{Fn: fn, StartEdge: [2]*ssa.BasicBlock{e[0], e[1]}, Avoid: isApp, Target: IsReturn, TargetEdge: endsIteration, Explored: &explored}); w != nil {
+				ifMatch = w
+			}
+		}
+		r.Check(ifMatch == nil, "graph."+name+".control-nodes.on-match", pf, "after a successful match the iteration does not end before the control node is listed",
+			name+" can finish the iteration for a control node whose "+side+" link matched the id without listing that control node", ifMatch...)
+		// (scan) an iteration ends only after a match or after the scan of the control node's links was exhausted:
+		// no control node is skipped, and no link of it is left unlooked-at, on account of anything else
+		var skipped []string
+		for _, body := range bodies {
+			if w := FindPath(p, PathQuery{Fn: fn, StartEdge: [2]*ssa.BasicBlock{outer.Header, body}, Target: IsReturn, TargetEdge: endsIteration, Explored: &explored,
+				AvoidEdge: func(from, to *ssa.BasicBlock) bool {
+					if isMatch(from, to) {
+						return true
+					}
+					for in := range scans {
+						if from == in.Header && !in.Blocks[to] {
+							return true
+						}
+					}
+					return false
+				}}); w != nil {
+				skipped = w
+			}
+		}
+		r.Check(skipped == nil, "graph."+name+".control-nodes.scan", pf, "every "+side+" link of every control node is compared with the id until one matches",
+			name+" can pass over a control node without having compared all of its "+side+" links with the id: a module wired to the node is then missing from the result although Edge/HasEdgeFromTo report the edge", skipped...)
+		// (reached) for a present node every result comes after the loop over the control nodes has run to its end
+		absent := func(b *ssa.BasicBlock) bool {
+			for _, g := range Guards(b) {
+				if x, y, isEq := eqCond(tf, g); isEq && ((isCallTo(x, nw) && y.Op == "nil") || (isCallTo(y, nw) && x.Op == "nil")) {
+					return true
+				}
+			}
+			return false
+		}
+		unreached := FindPath(p, PathQuery{Fn: fn, Explored: &explored,
+			Target:    func(in ssa.Instruction) bool { return IsReturn(in) && !absent(in.Block()) },
+			AvoidEdge: func(from, to *ssa.BasicBlock) bool { return from == outer.Header && !outer.Blocks[to] }})
+		r.Check(unreached == nil, "graph."+name+".control-nodes.reached", pf, "for a node that is present, no result is returned before the loop over the control nodes ran to its end",
+			name+" can return for a present node without having looked at the control nodes (for instance only nodes of one role are checked): a module wired to a sensor or an output node is missing from the successors/predecessors although the edge queries report it", unreached...)
+		r.PathsExplored += explored
 		r.Check(okAll, "graph."+name+".control-nodes.all", pf, "the loop over the control nodes runs to exhaustion, so every wired control node is listed", name+" stops looking at control nodes after the first match")
 	}
+}
+
+// assertsEmptyLen: taking the branch `outcome` of cond establishes len(v) == 0 for a v accepted by isList
+// (`len(v) == 0`, `len(v) < 1`, `len(v) <= 0`, the mirrored forms and the negated forms on the other branch).
+func assertsEmptyLen(cond ssa.Value, outcome bool, isList func(ssa.Value) bool) bool {
+	bo, ok := cond.(*ssa.BinOp)
+	if !ok {
+		return false
+	}
+	lenOf := func(v ssa.Value) ssa.Value {
+		c, ok := v.(*ssa.Call)
+		if !ok {
+			return nil
+		}
+		if b, isB := c.Call.Value.(*ssa.Builtin); isB && b.Name() == "len" && len(c.Call.Args) == 1 {
+			return c.Call.Args[0]
+		}
+		return nil
+	}
+	op := bo.Op
+	l, k := lenOf(bo.X), bo.Y
+	if l == nil {
+		l, k = lenOf(bo.Y), bo.X
+		switch op { // mirror: k op len  ==  len op' k
+		case token.LSS:
+			op = token.GTR
+		case token.GTR:
+			op = token.LSS
+		case token.LEQ:
+			op = token.GEQ
+		case token.GEQ:
+			op = token.LEQ
+		}
+	}
+	if l == nil || !isList(l) {
+		return false
+	}
+	kc, ok := k.(*ssa.Const)
+	if !ok || kc.Value == nil || kc.Value.Kind() != constant.Int {
+		return false
+	}
+	n, exact := constant.Int64Val(kc.Value)
+	if !exact {
+		return false
+	}
+	if !outcome {
+		switch op {
+		case token.EQL:
+			op = token.NEQ
+		case token.NEQ:
+			op = token.EQL
+		case token.LSS:
+			op = token.GEQ
+		case token.GEQ:
+			op = token.LSS
+		case token.GTR:
+			op = token.LEQ
+		case token.LEQ:
+			op = token.GTR
+		default:
+			return false
+		}
+	}
+	return (op == token.EQL && n == 0) || (op == token.LSS && n == 1) || (op == token.LEQ && n == 0)
+}
+
+// c11GenesisFailures: Genesis may refuse a genome only for a reason the property excludes from its domain -
+// no connection genes at all, or no output node. In particular a failure must not depend on which genes are
+// enabled: a genome whose genes are all disabled is expressed as a network without links.
+// Decided by path search: no feasible path from the entry reaches a return with a non-nil error (or an edge on
+// which the error result receives a non-nil value) without having taken a branch that establishes
+// len(recv.Genes) == 0 or len(<output list handed to the network constructor>) == 0.
+func (r *Run) c11GenesisFailures(gen *ssa.Function, tm *Termer, outList ssa.Value) {
+	p := r.P
+	isNilConst := func(v ssa.Value) bool {
+		c, ok := v.(*ssa.Const)
+		return ok && c.Value == nil
+	}
+	res := gen.Signature.Results()
+	errIdx := res.Len() - 1
+	failRet := map[ssa.Instruction]bool{}
+	type edge [2]*ssa.BasicBlock
+	failEdge := map[edge]bool{}
+	sites := 0
+	for _, b := range gen.Blocks {
+		ret, ok := b.Instrs[len(b.Instrs)-1].(*ssa.Return)
+		if !ok || errIdx >= len(ret.Results) {
+			continue
+		}
+		v := ret.Results[errIdx]
+		if isNilConst(v) {
+			continue
+		}
+		if _, isPhi := v.(*ssa.Phi); !isPhi {
+			failRet[ret] = true
+			sites++
+			continue
+		}
+		for ph := range phiWeb(v).Phis {
+			for i, e := range ph.Edges {
+				if _, inner := e.(*ssa.Phi); inner || isNilConst(e) {
+					continue
+				}
+				failEdge[edge{ph.Block().Preds[i], ph.Block()}] = true
+				sites++
+			}
+		}
+	}
+	pos := p.Pos(gen.Pos())
+	if sites == 0 {
+		r.OK("Genesis.failure", pos, "Genesis has no failing result")
+		return
+	}
+	isList := func(v ssa.Value) bool {
+		return v == outList || tm.Of(v).String() == "recv.Genes"
+	}
+	explored := 0
+	w := FindPath(p, PathQuery{Fn: gen, Explored: &explored,
+		Target:     func(in ssa.Instruction) bool { return failRet[in] },
+		TargetEdge: func(from, to *ssa.BasicBlock) bool { return failEdge[edge{from, to}] },
+		AvoidEdge: func(from, to *ssa.BasicBlock) bool {
+			iff, ok := from.Instrs[len(from.Instrs)-1].(*ssa.If)
+			if !ok || from.Succs[0] == from.Succs[1] {
+				return false
+			}
+			return assertsEmptyLen(iff.Cond, from.Succs[0] == to, isList)
+		}})
+	r.PathsExplored += explored
+	r.Check(w == nil, "Genesis.failure", pos, fmt.Sprintf("%d failing result(s), each only for a genome without genes or without output nodes", sites),
+		"Genesis can fail for a genome that has connection genes and output nodes: such a genome (for instance one whose genes are all disabled, which must be expressed as a network without links) gets an error instead of its network", w...)
 }
